@@ -292,6 +292,74 @@ theorem protected_from_descendant (g : Inh) (caller target : Node) (chain : List
     protectedOk (chain.length + 1) g caller target = true := by
   simp [protectedOk, ancestor_along_chain g target chain caller [] (chain.length + 1) hl hn (by simp) (Nat.le_refl _)]
 
+/-- `b` is reachable from `a` through one or more parent edges -/
+inductive Reach (g : Inh) : Node → Node → Prop
+  | step {a p : Node} : p ∈ parentsOfNode g a → Reach g a p
+  | trans {a p b : Node} : p ∈ parentsOfNode g a → Reach g p b → Reach g a b
+
+theorem anyAncestor_zero (g : Inh) (t : Node) (ps : List Node) (seen : List Node)
+    (h : (anyAncestor 0 g ps t seen).1 = true) : ∃ p ∈ ps, p = t := by
+  induction ps generalizing seen with
+  | nil => simp [anyAncestor] at h
+  | cons p rest ih =>
+    simp only [anyAncestor] at h
+    by_cases hp : (p == t) = true
+    · exact ⟨p, by simp, by simpa using hp⟩
+    · simp only [hp, isAncestor] at h
+      obtain ⟨q, hq, e⟩ := ih _ h
+      exact ⟨q, List.mem_cons_of_mem _ hq, e⟩
+
+/-- **The walk accepts only real ancestors** (soundness, every graph, every fuel, every entered-set): when
+`isAncestorNode` answers true, the target is reachable from the calling class through parent edges. -/
+theorem isAncestor_sound (g : Inh) (t : Node) : ∀ (fuel : Nat),
+    (∀ c seen, (isAncestor fuel g c t seen).1 = true → Reach g c t) ∧
+    (∀ ps seen, (anyAncestor fuel g ps t seen).1 = true → ∃ p ∈ ps, p = t ∨ Reach g p t) := by
+  intro fuel
+  induction fuel with
+  | zero =>
+    refine ⟨?_, ?_⟩
+    · intro c seen h; simp [isAncestor] at h
+    · intro ps seen h
+      obtain ⟨p, hp, e⟩ := anyAncestor_zero g t ps seen h
+      exact ⟨p, hp, Or.inl e⟩
+  | succ n ih =>
+    have h1 : ∀ c seen, (isAncestor (n + 1) g c t seen).1 = true → Reach g c t := by
+      intro c seen h
+      simp only [isAncestor] at h
+      split at h
+      · simp at h
+      · obtain ⟨p, hp, e⟩ := ih.2 _ _ h
+        rcases e with e | e
+        · subst e; exact Reach.step hp
+        · exact Reach.trans hp e
+    refine ⟨h1, ?_⟩
+    intro ps
+    induction ps with
+    | nil => intro seen h; simp [anyAncestor] at h
+    | cons p rest ihps =>
+      intro seen h
+      simp only [anyAncestor] at h
+      by_cases hp : (p == t) = true
+      · exact ⟨p, by simp, Or.inl (by simpa using hp)⟩
+      · simp only [hp] at h
+        cases hr : isAncestor (n + 1) g p t seen with
+        | mk b s =>
+          rw [hr] at h
+          cases b
+          · obtain ⟨q, hq, e⟩ := ihps s h
+            exact ⟨q, List.mem_cons_of_mem _ hq, e⟩
+          · exact ⟨p, by simp, Or.inr (h1 p seen (by rw [hr]))⟩
+
+/-- **A protected method called from outside the hierarchy is reported**: if the calling class is not the
+defining class and the defining class is not reachable from it, the check fails — whatever the fuel. -/
+theorem protected_outsider_reported (fuel : Nat) (g : Inh) (caller defined : Node)
+    (hne : caller ≠ defined) (hun : ¬ Reach g caller defined) : protectedOk fuel g caller defined = false := by
+  simp only [protectedOk]
+  have h1 : (caller == defined) = false := by simpa using hne
+  cases h : (isAncestor fuel g caller defined []).1 with
+  | false => simp [h1]
+  | true => exact absurd ((isAncestor_sound g defined fuel).1 caller [] h) hun
+
 /-- non-vacuity: `class C < B`, `class B < A` is a linked chain of distinct classes -/
 example :
     let n := fun (c : String) => ({ frame := [], cls := c.toList } : Node)
